@@ -89,6 +89,28 @@ theorem C12_jacobian_hasDerivAt (sc : SContent) (hwf : sc.wf = true) (t : Rat) (
   refine ⟨cache, x, hc, hx, fun i e hie hd => ⟨?_, h i e hie hd⟩⟩
   simp only [jacobianOf, List.getElem?_map, hie, Option.map_some, Option.bind_some, hx]
 
+/-- **whether `Model.__call__` returns or raises depends on names only**: for a well-formed surrogate-free model, if the
+    numeric right-hand side is defined at one state it is defined at every state of the same length (every raising path
+    of the shared numeric core is a failed name lookup; rate functions are total in the model, division by zero being
+    outside it). -/
+theorem C12_rhs_defined_by_names (sc : SContent) (hwf : sc.wf = true) (t : Rat) (xs xs' ds : List Rat)
+    (hlen : xs'.length = xs.length) (h : callRhs sc.toContent t xs = .ok ds) :
+    ∃ ds', callRhs sc.toContent t xs' = .ok ds' :=
+  callRhs_total sc.toContent (allFn_of_wf sc hwf) t xs xs' ds hlen h
+
+/-- **the symbolic Jacobian is the derivative of the numeric right-hand side — no assumption about other states.**
+    If the model converts and `Model.__call__` returns at `xs`, then for every coordinate `j` and component `i`, the
+    function `v ↦ Model.__call__(t, xs[j := v])[i]` (`rhsAlong`: the shared numeric core itself) is differentiable at
+    `xs[j]` with derivative entry `(i, j)` of the symbolic Jacobian evaluated at the state and the model's parameter
+    values — wherever no denominator of equation `i` vanishes.  (`C12_jacobian_hasDerivAt` had the definedness along the
+    coordinate as a hypothesis; `C12_rhs_defined_by_names` discharges it.) -/
+theorem C12_jacobian_hasDerivAt_total (sc : SContent) (hwf : sc.wf = true) (t : Rat) (xs ds : List Rat) (j : Nat)
+    (es : List SExpr) (hj : j < xs.length) (hs : toSymbolic sc = .ok es) (h0 : callRhs sc.toContent t xs = .ok ds) :
+    ∃ cache x, createCache sc.toContent = .ok cache ∧ cache.varNames[j]? = some x ∧
+      ∀ (i : Nat) (e : SExpr), es[i]? = some e → DenOK (symEnv sc cache xs) e →
+        HasDerivAt (fun v : ℚ => (rhsAlong sc t xs j v).getD i 0) (evalS (symEnv sc cache xs) (D x e)) xs[j] :=
+  jac_hasDerivAt_total sc hwf t xs ds j es hj hs h0
+
 /-- **order independence (full statement).**  Take a well-formed model built from functions
     that translate, whose derived quantities and reactions mention only variables, plain
     parameters, data and derived quantities, with numeric coefficients and every variable in
